@@ -126,11 +126,29 @@ fn typed<C: Ord + Clone + Default + std::fmt::Debug>(case: &MultiCase, names: Ve
     if first_trial_clamped {
         out.tag("multi_first_trial_step_inside_log_sum_exp_clamp_region");
     }
+    // ... or at the true minimiser itself (nearly separable classes, small alpha: score spreads > 34.5 between rows)
+    // ... or on the ray from the start through the true minimiser, up to 16 times its length (the line
+    //     search extrapolates; nearly separable classes with a small alpha have score spreads near 34.5 at the minimiser)
+    let optimum_clamped = [1.0, 2.0, 4.0, 8.0, 16.0].iter().any(|&t| {
+        let p: Vec<f64> = theta0.iter().zip(&own.x).map(|(a, b)| a + t * (b - a)).collect();
+        clamp_active(&case.x, &p, k, case.intercept)
+    });
+    if optimum_clamped {
+        out.tag("multi_ray_to_minimiser_enters_log_sum_exp_clamp_region");
+    }
+    let clamp_note = if first_trial_clamped {
+        " [the first line-search trial point theta0 - grad has rows whose best score is > ln(1e15) below the global maximum score: log_sum_exp clamps them]"
+    } else if optimum_clamped {
+        " [on the ray from the start through the true minimiser (within 16 x its length) some rows' best score is > ln(1e15) below the global maximum score: log_sum_exp clamps them there]"
+    } else {
+        ""
+    };
+    let first_trial_clamped = first_trial_clamped || optimum_clamped;
     let mut model = match guarded(|| params.fit(&ds)) {
         Ok(Ok(m)) => m,
         Ok(Err(e)) => {
             let sig = if first_trial_clamped { "multi_logistic.fit.error.log_sum_exp_global_shift_clamp" } else { "multi_logistic.fit.unexpected_error" };
-            viols.push(Violation::new(sig, format!("fit on an in-domain {}-class dataset returned Err({})", k, e), cj()));
+            viols.push(Violation::new(sig, format!("fit on an in-domain {}-class dataset returned Err({}){}", k, e, clamp_note), cj()));
             return out;
         }
         Err(p) => {
@@ -241,7 +259,7 @@ fn typed<C: Ord + Clone + Default + std::fmt::Debug>(case: &MultiCase, names: Ve
                 own.f,
                 gap,
                 gap_tol,
-                if first_trial_clamped { " [the first line-search trial point theta0 - grad has rows whose best score is > ln(1e15) below the global maximum score: log_sum_exp clamps them]" } else { "" }
+                clamp_note
             ),
             cj(),
         ));
